@@ -12,8 +12,9 @@
 (*   compile err          -> the value is an error: validation and the     *)
 (*                           data exports report an error too              *)
 (*   validate err         -> the concrete validation is an error as well   *)
-(*   concrete ok          -> the value is data: JSON and YAML succeed      *)
-(*   json ok <=> yaml ok     (both need exactly a concrete value)          *)
+(* (Nothing is required between "concrete ok" and the data exports: a     *)
+(* value may be concrete and still have no JSON form, e.g. a reference to  *)
+(* a builtin package; such an export fails with an ordinary error.)        *)
 (* Three runs are made of every program: in a context that has been used   *)
 (* for other programs before (same process), in a fresh context, and in    *)
 (* another process.  Repeatability: every stage of run 2 and run 3 has the *)
@@ -34,7 +35,7 @@ CONSTANTS Mode,     \* "programs" | "mutants" | "automaton"
 
 Labels == <<"a", "b", "c">>
 Pool == <<
-  "1", "\"s\"", "true", "null", "1.5", "'b'", "int", "string", ">0", "<=10", "=~\"^a\"", "number", "_", "_|_",
+  "1", "5", "\"s\"", "true", "null", "1.5", "'b'", "int", "string", ">0", "<=10", "=~\"^a\"", "number", "_", "_|_",
   "a", "b", "c", "a.x", "b.x", "c.y", "a[0]", "a.x.y",
   "a + 1", "b * 2", "a / 0", "1 / 0", "div(a, 0)", "a + \"s\"", "-a", "!a", "a - b", "a < b", "a == b",
   "{x: 1}", "{x: a}", "{x: b.x}", "{x: int, y?: 2}", "{x!: int}", "{[string]: int}", "{[=~\"^x\"]: a}", "close({x: 1})", "{x: 1, ...}",
@@ -45,7 +46,8 @@ Pool == <<
   "a & {y: 1}", "{x: a.x}", "a & b", "b & >0", "a & {x: b}",
   "\"\\(a)\"", "\"\\(b.x)-\\(c)\"", "{let L = a, x: L}", "{let L = L2, let L2 = L, x: L}", "len(a)", "or([a, b])", "and([a, {x: 1}])",
   "{(a): 1}", "{\"\\(b)\": 2}", "{x: 1}.x", "{x: 1}.y", "close({x: 1}) & {y: 2}", "#Z", "{#Z: a, v: #Z & {q: 1}}",
-  "{x: 1, x: 2}", "{x: >2 & <1}", "[1, 2] & [1]", "3 & 4.0", "\"a\" + 1", "{x: [x]}", "{x: [...x]}", "{x?: x}">>
+  "{x: 1, x: 2}", "{x: >2 & <1}", "[1, 2] & [1]", "3 & 4.0", "\"a\" + 1", "{x: [x]}", "{x: [...x]}", "{x?: x}",
+  "[1, 2, 3][5:]", "'abc'[4:]", "a[1:]", "[1, 2][1:0]", "[1, 2, 3][:5]", "a[b:]", "[1, 2, 3][-1:]", "{\"#a\": 1}", "{#a: 2}", "{_h: 1, \"_h\": 2}">>
 NP == Len(Pool)
 
 \* hand-picked programs (indices into Pool per label)
@@ -63,6 +65,9 @@ Fixed == {
   <<Ix("{x: [...x]}"), Ix("{x?: x}"), Ix("{x: [x]}")>>,
   <<Ix("{(a): 1}"), Ix("\"\\(a)\""), Ix("{\"\\(b)\": 2}")>>,
   <<Ix("{#Z: a, v: #Z & {q: 1}}"), Ix("#Z"), Ix("a.x.y")>>,
+  <<Ix("{\"#a\": 1}"), Ix("{#a: 2}"), Ix("a & b")>>,              \* a definition and a regular field spelled alike
+  <<Ix("[1, 2, 3][5:]"), Ix("'abc'[4:]"), Ix("a[1:]")>>,
+  <<Ix("[1, 2]"), Ix("5"), Ix("a[b:]")>>,
   <<Ix("{let L = L2, let L2 = L, x: L}"), Ix("{x: y + 1, y: x - 1}"), Ix("{x: y, y: x}")>>
 }
 
@@ -100,8 +105,6 @@ Allowed(r, s, oc) ==
   /\ oc \in {"ok", "err"}
   /\ (name \in {"validate", "concrete", "json", "yaml"} /\ Oc(r, 2) = "err") => oc = "err"
   /\ (name = "concrete" /\ Oc(r, 3) = "err") => oc = "err"
-  /\ (name \in {"json", "yaml"} /\ Oc(r, 4) = "ok") => oc = "ok"
-  /\ (name = "yaml") => oc = Oc(r, 6)
   \* repeatability
   /\ (r > 1) => (s <= Len(out[1]) /\ oc = out[1][s].oc)
 
@@ -125,7 +128,7 @@ Stutter == UNCHANGED vars
 TypeOK == run \in 1..4 /\ stage \in 1..NS /\ \A r \in Runs : Len(out[r]) <= NS
 Repeatable == Done => (out[1] = out[2] /\ out[2] = out[3])
 ParseErrorEnds == \A r \in Runs : (Len(out[r]) >= 1 /\ out[r][1].oc = "err") => Len(out[r]) = 1
-DataExportsAgree == \A r \in Runs : Len(out[r]) = NS => out[r][6].oc = out[r][7].oc
+ErrorValueNotExported == \A r \in Runs : (Len(out[r]) = NS /\ out[r][2].oc = "err") => (out[r][6].oc = "err" /\ out[r][7].oc = "err")
 Terminates == <>Done
 
 TablesInit == prog = [pool |-> Pool, labels |-> Labels, stages |-> Stages, seeds |-> Seeds, ops |-> MutOps, inserts |-> Inserts] /\ run = 0 /\ stage = 0 /\ out = <<>>
